@@ -210,6 +210,11 @@ func saveRespToCache(msgKey string, r *dns.Msg, backend *cache.Cache[key, *item]
 	if msgTtl <= 0 || cacheTtl <= 0 {
 		return false
 	}
+	if !keyMatchesQuestion(msgKey, r) {
+		// r was set for another question (e.g. by a plugin in front of a
+		// redirect). It must not be stored under this key.
+		return false
+	}
 
 	now := time.Now()
 	v := &item{
@@ -218,5 +223,31 @@ func saveRespToCache(msgKey string, r *dns.Msg, backend *cache.Cache[key, *item]
 		expirationTime: now.Add(msgTtl),
 	}
 	backend.Store(key(msgKey), v, now.Add(cacheTtl))
+	return true
+}
+
+// keyMatchesQuestion reports whether the question of r is the question
+// msgKey was made from (names are compared ignoring ASCII case).
+func keyMatchesQuestion(msgKey string, r *dns.Msg) bool {
+	if len(r.Question) != 1 {
+		return false
+	}
+	k := getMsgKey(&dns.Msg{Question: r.Question})
+	n := len(k)
+	if n != len(msgKey) || n < 6 || k[1:4] != msgKey[1:4] || k[n-2:] != msgKey[n-2:] {
+		return false
+	}
+	for i := 4; i < n-2; i++ {
+		a, b := k[i], msgKey[i]
+		if 'A' <= a && a <= 'Z' {
+			a += 'a' - 'A'
+		}
+		if 'A' <= b && b <= 'Z' {
+			b += 'a' - 'A'
+		}
+		if a != b {
+			return false
+		}
+	}
 	return true
 }
